@@ -319,7 +319,7 @@ func (r *transport) handleCacheHit(
 		}
 	}
 	reqMaxAgeExceeded := hasReqMaxAge &&
-		own.Age.Value+r.clock.Since(own.Age.Timestamp) > reqMaxAge
+		internal.AddAge(own.Age.Value, max(r.clock.Since(own.Age.Timestamp), 0)) > reqMaxAge
 
 	// Cases in which the stored response must not be used without successful
 	// validation: request no-cache (RFC 9111 §5.2.1.4) or a request max-age it
@@ -348,7 +348,7 @@ func (r *transport) handleCacheHit(
 	}
 
 	if swr, swrValid := ccResp.StaleWhileRevalidate(); freshness.IsStale && swrValid {
-		age := freshness.Age.Value + r.clock.Since(freshness.Age.Timestamp)
+		age := internal.AddAge(freshness.Age.Value, max(r.clock.Since(freshness.Age.Timestamp), 0))
 		staleFor := age - freshness.UsefulLife
 		if staleFor >= 0 && staleFor < swr {
 			return r.handleStaleWhileRevalidate(
